@@ -387,7 +387,7 @@ package fiber
 
 // (C10 clauses of New / init: the proxy set built from Config.TrustProxyConfig.Proxies - macros in zz_contracts_c10_verif.go)
 //@ func New
-//@   props C06 C10
+//@   props C06 C08 C10
 //@   loop 1
 //@     invariant [C06] conversions-installed: app.config.Immutable ==> app.getString == getStringImmutable && app.getBytes == getBytesImmutable
 //@     invariant [C06] zero-copy-otherwise: !app.config.Immutable ==> app.getString == utils.UnsafeString && app.getBytes == utils.UnsafeBytes
@@ -398,6 +398,9 @@ package fiber
 //@   ensures [C06] immutable-installs-copying-conversions: result.config.Immutable ==> copies(result.getString) && copies(result.getBytes) && result.getString == getStringImmutable && result.getBytes == getBytesImmutable
 //@   ensures [C06] zero-copy-otherwise: !result.config.Immutable ==> result.getString == utils.UnsafeString && result.getBytes == utils.UnsafeBytes
 //@   ensures [C06] only-the-two-conversions: (result.getString == utils.UnsafeString || result.getString == getStringImmutable) && (result.getBytes == utils.UnsafeBytes || result.getBytes == getBytesImmutable)
+//@   ensures [C08] configured-handler-is-the-callers: len(config) > 0 ==> result.configured.ErrorHandler == old(config[0].ErrorHandler)
+//@   ensures [C08] none-configured-without-config: len(config) == 0 ==> result.configured.ErrorHandler == nil
+//@   ensures [C08] effective-handler-is-configured-or-default: result.config.ErrorHandler == ite(result.configured.ErrorHandler != nil, result.configured.ErrorHandler, DefaultErrorHandler)
 //@   ensures [C10] ips-exactly-listed-addresses: ipsExact(result.config.TrustProxyConfig, len(result.config.TrustProxyConfig.Proxies))
 //@   ensures [C10] ranges-only-listed-cidrs: rangesOnlyListed(result.config.TrustProxyConfig, len(result.config.TrustProxyConfig.Proxies))
 //@   ensures [C10] ranges-all-listed-cidrs: rangesAllListed(result.config.TrustProxyConfig, len(result.config.TrustProxyConfig.Proxies))
